@@ -532,6 +532,7 @@ class InterleavedCheck(PropertyCheck):
 
 class C04(InterleavedCheck):
     pid = "C04"
+    claimed = True
     which = "C04"
     design_ref = "DESIGN.md 3 (C04/C05/C06)"
     level_text = ("Lean theorems (KDVerif.Props.C04): for all accepted geometries, budgets, config sets, oracles and checkpoints before the budget the "
@@ -554,6 +555,7 @@ class C04(InterleavedCheck):
 
 class C05(InterleavedCheck):
     pid = "C05"
+    claimed = True
     which = "C05"
     design_ref = "DESIGN.md 3 (C04/C05/C06)"
     level_text = ("Lean theorems (KDVerif.Props.C05): due-decision = disjunction of reached/crossed intervals (all kind combinations), passes are whole, "
@@ -566,6 +568,7 @@ class C05(InterleavedCheck):
 
 class C06(InterleavedCheck):
     pid = "C06"
+    claimed = True
     which = "C06"
     design_ref = "DESIGN.md 3 (C04/C05/C06)"
     level_text = ("Lean theorem resume_is_suffix (KDVerif.Props.C06): for every accepted epoch-boundary checkpoint strictly before the budget the resumed stream "
